@@ -673,11 +673,8 @@ pub fn load(
         let name = match name {
             Some(name) => name.clone(),
             None => if let Some(import_root) = import_root {
-                filename
-                    .parent()
-                    .unwrap()
-                    .strip_prefix(import_root.path())
-                    .unwrap()
+                // a file included from outside the import root keeps its full directory
+                relpath.strip_prefix(import_root.path()).unwrap_or(relpath)
             } else {
                 relpath
             }
